@@ -48,6 +48,17 @@ class Prop(BaseProp):
             if k32[0] == 0:
                 cases.append({"kind": "PrivB", "b": k32.lstrip(b"\x00").hex()})
                 cases.append({"kind": "PrivB", "b": k32[1:].hex()})
+        # the same byte strings through the other byte constructor, PrivateKey.parse: every PrivB case so far, plus 33-byte strings that
+        # carry a valid scalar behind / before a zero byte (the padded form extended keys use is NOT a private key encoding)
+        extra = []
+        for k in good[:6] + [rng.randrange(1, 2 ** 247)]:
+            k32 = k.to_bytes(32, "big")
+            extra += [("00" + k32.hex()), (k32.hex() + "00"), (k32.hex() + "01"), ("01" + k32.hex())]
+        for c in list(cases):
+            if c["kind"] == "PrivB":
+                extra.append(c["b"])
+        for b in extra:
+            cases.append({"kind": "PrivB", "b": b, "via": "parse"})
         for k in good[: (len(good) if T else 7)]:
             for comp in (True, False):
                 for test in (True, False):
@@ -101,7 +112,7 @@ class Prop(BaseProp):
                 return None
         if k == "PrivB":
             b = bytes.fromhex(case["b"])
-            o = ob_priv(lambda: PrivateKey(b))
+            o = ob_priv((lambda: PrivateKey.parse(b)) if case.get("via") == "parse" else (lambda: PrivateKey(b)))
             return {"ob": o, "err": o is None}
         if k == "PrivI":
             o = ob_priv(lambda: PrivateKey(case["k"]))
